@@ -65,11 +65,18 @@ class Injector:
         os.replace = replace
 
 
-SCENARIOS = ["job-doc-set", "job-doc-reset", "project-doc-set", "job-doc-big", "buffered-flush", "update-cache-grow", "update-cache-shrink", "job-clear", "job-reset"]
+SCENARIOS = ["job-doc-set", "job-doc-reset", "project-doc-set", "job-doc-big", "buffered-flush", "update-cache-grow", "update-cache-shrink", "job-clear", "job-reset",
+             "migrate-project-name"]
 
 
 def prepare(d, name):
     import signac
+    if name == "migrate-project-name":
+        # a schema-version-1 project with a non-default name and an existing project document: the migration stores the name in it
+        from .c20 import make_legacy
+        make_legacy(d + "/p", 1, "my project", None, False, 1)
+        open(os.path.join(d, "p", "signac_project_document.json"), "w").write(json.dumps({"pk": "old", "l": list(range(30))}))
+        return d + "/p", None
     os.makedirs(d + "/p")
     p = signac.init_project(d + "/p")
     j = p.open_job({"a": 1}).init()
@@ -88,6 +95,13 @@ def prepare(d, name):
 
 def action(name, ppath, jid):
     import signac
+    if name == "migrate-project-name":
+        import contextlib
+        import io
+        from signac.migration import apply_migrations
+        with contextlib.redirect_stdout(io.StringIO()):
+            apply_migrations(ppath)
+        return
     p = signac.Project(ppath)
     j = p.open_job(id=jid)
     if name == "job-doc-set":
@@ -118,7 +132,7 @@ def observed(ppath, jid, name):
             return sorted(json.loads(gzip.open(fn, "rb").read().decode()))
         except Exception as e:
             return f"UNREADABLE ({type(e).__name__}: {e})"
-    fn = os.path.join(ppath, "signac_project_document.json") if name == "project-doc-set" else os.path.join(ppath, "workspace", jid, "signac_job_document.json")
+    fn = os.path.join(ppath, "signac_project_document.json") if name in ("project-doc-set", "migrate-project-name") else os.path.join(ppath, "workspace", jid, "signac_job_document.json")
     try:
         return json.loads(open(fn, "rb").read().decode())
     except FileNotFoundError:
@@ -186,7 +200,8 @@ def run(tier="quick", seed=0):
         if bad:
             failures.append({"key": f"crash:{name}:{k}:{'torn' if torn else 'before'}", "description": bad,
                              "script": script_header() + f"sys.path.insert(0, '/verif')\nfrom pybound.c10 import scenario\nbad, reached, got = scenario({name!r}, {k}, {torn})\nassert not bad, bad\n"})
-    return {"scope": "9 write scenarios (job document item set / reset / 300 kB value / buffered flush, project document, update_cache with a grown and a shrunk workspace, job.clear, job.reset); "
+    return {"scope": "10 write scenarios (job document item set / reset / 300 kB value / buffered flush, project document, update_cache with a grown and a shrunk workspace, job.clear, job.reset, "
+                     "the v1->v2 migration storing a non-default project name in an existing project document); "
                      "the writing process is killed right before the k-th file-system step (open-for-write, each write call, close, os.replace; k = 1..8) or in the middle of it (half the bytes flushed); "
                      "a reader at that point = the file as found afterwards",
             "evaluations": evals, "distinct_nontrivial": len(distinct), "rule": "a case is one (scenario, step, before/mid-write) run that reached the step; distinct by that triple",
